@@ -60,7 +60,7 @@ def r2(repo, run):
     res = {}
     for an in (None, True, False):
         o = node_obj('n', _implicit_allow_new=an)
-        f = FDE(repo, inline={'notnone_or'})
+        f = FDE(repo)
         r = fde_guard(lambda: f.call(mg, o, None))
         res[an] = r.raised
     if res[False] is None or res[True] is not None or res[None] is not None:
@@ -75,7 +75,7 @@ def r3(repo, run):
     for a in F3:
         for i in F3:
             p = node_obj('p', 'ComposedNode', _allow_new=a, _implicit_allow_new=i)
-            f = FDE(repo, inline={'notnone_or'})
+            f = FDE(repo)
             r = fde_guard(lambda: f.call(gk, p))
             exp = a if a is not None else i
             if r.ret.get('implicit_allow_new') is not exp:
@@ -89,7 +89,7 @@ def r3(repo, run):
     for i in F3:
         for a in F3:
             o = node_obj('n', _allow_new=a, _implicit_allow_new=i)
-            f = FDE(repo, inline={'notnone_or'})
+            f = FDE(repo)
             v = fde_guard(lambda: f.getter(o, 'allow_new'))
             exp = i if i is not None else True
             if v is not exp:
@@ -105,7 +105,7 @@ def r3(repo, run):
         for exc in (None, ['p'], ['q']):
             for inc in (True, False):
                 o = node_obj('n', _implicit_allow_new=i)
-                f = FDE(repo, inline={'notnone_or'})
+                f = FDE(repo)
                 r = fde_guard(lambda: f.call(leaf, o, 'p', 'reason', exceptions=exc, include_self=inc))
                 exp = (i is False) and inc and (exc is None or 'p' not in exc)
                 if bool(r.raised) != exp:
@@ -138,7 +138,7 @@ def r3(repo, run):
         probs.append('loop body is not a single `if <not allowed>: raise`')
     else:
         p_, n_ = [e.id for e in lp.target.elts]
-        f = FDE(repo, inline={'notnone_or'})
+        f = FDE(repo)
         for i in F3:
             for exc in (None, ['p'], ['q']):
                 o = node_obj('n', _implicit_allow_new=i)
@@ -196,6 +196,7 @@ def check(repo, run, tier):
     run.floor('C08.R1', 4)
     r2(repo, run)
     r3(repo, run)
+    mr.propagation_table(repo, run, 'C08.R3', 'allow_new')
     r4(repo, run)
 
 
